@@ -489,9 +489,26 @@ def r6_configured_mode_reaches_the_dispatch(ctx):
                 else:
                     variants.add("<%s>" % c)
         ctx.check(R, "unnamed-mode-is-detached", variants == {"Detached"}, "ConfigDropshot::default().default_handler_task_mode can be: %s (documented default: Detached)" % (sorted(variants) or "unknown"), dflt)
+    # Added after adversary change C16-M (`#[serde(other)]` on the Detached variant, "falls back to the safe choice": a misspelt
+    # `cancel_on_disconnect` in a TOML/JSON configuration was accepted and the server ran Detached): the configuration parser
+    # refuses a mode name it does not know -- the variant-name visitors keep their `unknown_variant` error
+    vis = [f for k, f in ds.F.items() if "HandlerTaskMode" in k and "__FieldVisitor" in k and re.search(r"::visit_(str|bytes)$", k)]
+    ctx.check(R, "mode-name-visitors", len(vis) >= 2, "variant-name visitors of HandlerTaskMode's Deserialize impl: %d" % len(vis), None, nontrivial=False)
+    for f in vis:
+        ok = bool(f.live_calls(r"de::Error::unknown_variant$"))
+        ctx.check(R, "unknown-mode-name-is-refused:%s" % f.id.rsplit("::", 1)[-1], ok, "%s ends in Error::unknown_variant for names that are not modes: %s (a catch-all variant would turn any misspelling into a mode)" % (f.id.rsplit("::", 1)[-1], ok), f)
 
 
-RULES = [("C16.R7", r7_orphaned_result_is_recorded), ("C16.R6", r6_configured_mode_reaches_the_dispatch), ("C16.R5", r5_disconnect_record_only_when_dropped), ("C16.R4", r4_connection_config_shared), ("C16.R1", r1_mode_table), ("C16.R2", r2_exactly_once), ("C16.R3", r3_panic_propagation)]
+def r8_responses_of_connected_clients_are_delivered(ctx):
+    """`handlers of clients that stay connected complete and their responses are delivered`: the crate never asks the kernel for an
+    abortive close of a served connection (SO_LINGER), which would discard response bytes still queued when the server closes it.
+    This is the census of C17.R5, re-evaluated here (adversary change C16-N: zero linger on accepted plain-HTTP sockets)."""
+    from . import c17
+    from .lib_c01 import Renamed
+    c17.r5_listener_owned(Renamed(ctx, "C16.R8", "no served connection is configured for an abortive close (SO_LINGER is never set): a completed handler's response is not cut short by the close"))
+
+
+RULES = [("C16.R8", r8_responses_of_connected_clients_are_delivered), ("C16.R7", r7_orphaned_result_is_recorded), ("C16.R6", r6_configured_mode_reaches_the_dispatch), ("C16.R5", r5_disconnect_record_only_when_dropped), ("C16.R4", r4_connection_config_shared), ("C16.R1", r1_mode_table), ("C16.R2", r2_exactly_once), ("C16.R3", r3_panic_propagation)]
 
 _S = "dropshot/src/server.rs"
 SELFTEST = [
